@@ -62,6 +62,11 @@ def make_factory(cfg):
     import claripy
 
     claripy.backends.z3.reuse_z3_solver = bool(cfg.get("reuse"))
+    if not hasattr(claripy, cfg.get("cls", "Solver")):
+        # C13 configuration names
+        from vf.props import c13
+
+        return lambda: c13.make_solver(cfg["cls"])
     cls = getattr(claripy, cfg.get("cls", "Solver"))
     kw = dict(cfg.get("kwargs") or {})
     if cfg.get("track"):
@@ -91,7 +96,7 @@ def main():
     logging.getLogger("claripy").setLevel(logging.CRITICAL)
     w = json.load(open(sys.argv[1]))
     cfg = w.get("config") or {}
-    mode = "approx" if cfg.get("approx") else "exact"
+    mode = "approx" if cfg.get("approx") or cfg.get("cls") in ("hybrid-false", "vsa", "replacement-vsa") else "exact"
     steps = [e[2] for e in w["history"]]
     v = fails(steps, cfg, mode)
     if v is None:
